@@ -47,19 +47,22 @@ def main():
         subprocess.run(f"git -C /repo worktree remove --force {wt}", shell=True, capture_output=True)
     meta["confirmed"] = all(meta.get(k) for k in ("demo_without_patch_passes", "patch_applies", "builds", "demo_with_patch_fails", "existing_suite_green_with_patch"))
     # run the check against it
-    st = subprocess.run("git -C /repo status --porcelain", shell=True, capture_output=True, text=True).stdout.strip()
+    # VP_EVAL_REPO: a clean worktree of /repo's HEAD to mutate instead of /repo itself
+    # (when /repo is in use by something else); the check then runs with -repo.
+    R = os.environ.get("VP_EVAL_REPO", "/repo")
+    st = subprocess.run(f"git -C {R} status --porcelain", shell=True, capture_output=True, text=True).stdout.strip()
     if st:
-        print("refusing: /repo is dirty:", st); sys.exit(2)
-    rc, out = run(f"git -C /repo apply {patch}", "/repo")
+        print(f"refusing: {R} is dirty:", st); sys.exit(2)
+    rc, out = run(f"git -C {R} apply {patch}", R)
     try:
         t0 = time.time()
-        rc, out = run(f"./check {prop} {tier} -noevidence", "/verif", timeout=3600)
+        rc, out = run(f"./check {prop} {tier} -noevidence" + ("" if R == "/repo" else f" -repo {R}"), "/verif", timeout=3600)
         meta["check"] = {"tier": tier, "exit": rc, "wall_s": round(time.time() - t0, 1),
                          "violation_lines": [l for l in out.splitlines() if l.startswith("VIOLATION") or "violation:" in l][:8],
                          "other": [l for l in out.splitlines() if "UNCONFIRMED" in l or "MACHINERY" in l][:6]}
         meta["detected"] = rc == 1
     finally:
-        subprocess.run("git -C /repo checkout -- . && git -C /repo clean -fdq -e nothing >/dev/null", shell=True)
+        subprocess.run(f"git -C {R} checkout -- . && git -C {R} clean -fdq -e nothing >/dev/null", shell=True)
     meta["ran"] = [f"scratch worktree: apply patch, go build ./..., go test ./... (suite), demo test with and without the patch",
                    f"/repo: git apply patch; ./check {prop} {tier} -noevidence; git checkout -- ."]
     json.dump(meta, open(os.path.join(dst, "meta.json"), "w"), indent=1)
